@@ -2,6 +2,7 @@ package proc
 
 import (
 	"encoding/json"
+	"errors"
 	"fmt"
 	"os"
 	"path/filepath"
@@ -14,9 +15,13 @@ type Instance struct {
 	Key     string
 	Signer  *Signer
 	Backend *Backend
-	Keys    []WalletKey // the accounts that can sign
+	Keys    []WalletKey // the accounts that can sign (as written at start-up)
 	Decoys  []Decoy     // listed by eth_accounts as well, but never able to sign (mis-filed / unreadable key files)
-	lastUse int64
+	// Listener: the process watches WalletDir; files added there (AddKey, AddDecoy, PlaceFile)
+	// become part of its wallet.  Keys / Decoys keep describing the start-up content.
+	Listener  bool
+	WalletDir string
+	lastUse   int64
 }
 
 // Listed returns every address eth_accounts has to report (40 lower-case hex digits each).
@@ -41,8 +46,12 @@ type Pool struct {
 	n     int
 	fresh int
 	tick  int64
-	Max   int // live processes kept at most (least recently used is stopped); default 12
-	Stats struct{ Started, Crashed int }
+	// limitHit: the last listening process could not get an inotify instance even after
+	// waiting; until one succeeds again the next ones do not wait (a machine that is out of
+	// instances for minutes must not cost every session the full pause)
+	limitHit bool
+	Max      int // live processes kept at most (least recently used is stopped); default 12
+	Stats    struct{ Started, Crashed int }
 }
 
 // NewPool creates an empty pool below base.
@@ -54,6 +63,10 @@ func NewPool(base string) *Pool {
 // use.  chainID nil means "not configured": the proxy then discovers the chain id
 // by asking the backend for net_version, which is answered with netVersion.
 func (p *Pool) Get(key string, chainID *int64, netVersion json.RawMessage) (*Instance, error) {
+	return p.get(key, chainID, netVersion, false)
+}
+
+func (p *Pool) get(key string, chainID *int64, netVersion json.RawMessage, listener bool) (*Instance, error) {
 	p.mu.Lock()
 	defer p.mu.Unlock()
 	p.tick++
@@ -84,14 +97,21 @@ func (p *Pool) Get(key string, chainID *int64, netVersion json.RawMessage) (*Ins
 	}
 	keys := Keys(3)
 	decoys := Decoys(keys)
-	sg, err := StartSigner(SignerOptions{Dir: dir, BackendURL: be.URL, ChainID: chainID, Keys: keys, Decoys: decoys})
+	waits := 0
+	if p.limitHit {
+		waits = -1
+	}
+	sg, err := StartSigner(SignerOptions{Dir: dir, BackendURL: be.URL, ChainID: chainID, Keys: keys, Decoys: decoys, Listener: listener, ListenerWaits: waits})
+	if listener {
+		p.limitHit = errors.Is(err, ErrListenerLimit)
+	}
 	if err != nil {
 		be.Close()
 		_ = os.RemoveAll(dir)
 		return nil, err
 	}
 	p.Stats.Started++
-	in := &Instance{Key: key, Signer: sg, Backend: be, Keys: keys, Decoys: decoys, lastUse: p.tick}
+	in := &Instance{Key: key, Signer: sg, Backend: be, Keys: keys, Decoys: decoys, Listener: listener, WalletDir: sg.WalletDir, lastUse: p.tick}
 	p.inst[key] = in
 	return in, nil
 }
@@ -100,11 +120,19 @@ func (p *Pool) Get(key string, chainID *int64, netVersion json.RawMessage) (*Ins
 // that are whole histories: replaying such a case starts from the same state.  The caller
 // Drops the instance when the history is over.
 func (p *Pool) Fresh(chainID *int64, netVersion json.RawMessage) (*Instance, error) {
+	return p.FreshListener(chainID, netVersion, false)
+}
+
+// FreshListener is Fresh with the wallet's file-system listener switched on or off.  A
+// listening process holds an inotify instance (a scarce per-user resource): only processes
+// of this short-lived kind may listen, and the caller must Drop each before it asks for the
+// next.  The error is ErrListenerLimit when the kernel has none to give.
+func (p *Pool) FreshListener(chainID *int64, netVersion json.RawMessage, listener bool) (*Instance, error) {
 	p.mu.Lock()
 	p.fresh++
 	key := fmt.Sprintf("fresh-%d", p.fresh)
 	p.mu.Unlock()
-	return p.Get(key, chainID, netVersion)
+	return p.get(key, chainID, netVersion, listener)
 }
 
 func (p *Pool) dropLocked(in *Instance) {
